@@ -51,7 +51,7 @@ CHECKS = {
             # loops of length 2..5 and open lists, with and without topology check, reusing an existing face or creating
             dict(name='face-entry', Depth=1, SeedIds=[2], Modes='ModesDefault', HistOps=[], TargetOps=['tet_face_entry'], q=1, sample=500),
             # every halfface list over a tetrahedron plus two dangling triangles (not sampled)
-            dict(name='additions-dangling', Depth=1, SeedIds=[11], Modes='ModesDefault', HistOps=[], TargetOps=['add_cell4'], q=1),
+            dict(name='additions-dangling', Depth=1, SeedIds=[11], Modes='ModesDefault', HistOps=[], TargetOps=['add_cell4', 'tet_add_cell_v12'], q=1),
             # TetTopology / TriangleTopology for every constructor form and all labels
             dict(name='labels', Depth=1, SeedIds=[1, 2, 3, 5, 8, 9], Modes='ModesDefault', HistOps=[],
                  TargetOps=['delete_cell', 'collect_garbage'], q=3),
@@ -68,7 +68,7 @@ CHECKS = {
                  q=1, sample=12000),
             dict(name='face-entry', Depth=2, SeedIds=[2, 8], Modes='ModesDefault', HistOps=['delete_cell'], TargetOps=['tet_face_entry'], q=1, sample=6000),
             dict(name='additions-2', Depth=2, SeedIds=[2, 5, 8], Modes='ModesDefault', HistOps=['delete_cell', 'collapse_edge'],
-                 TargetOps=['add_cell4', 'tet_add_cell_4', 'tet_add_cell_v', 'tet_add_cell_v_taken', 'tet_add_cell_new'],
+                 TargetOps=['add_cell4', 'tet_add_cell_4', 'tet_add_cell_v', 'tet_add_cell_v_taken', 'tet_add_cell_new', 'tet_add_cell_v12'],
                  q=1, sample=8000),
             dict(name='splits', Depth=3, SeedIds=[1, 2, 3, 5, 6], Modes='ModesAll', HistOps=['add_vertex', 'split_edge', 'split_face'],
                  TargetOps=['split_edge', 'split_face', 'collapse_edge', 'collect_garbage'], q=1, sample=8000),
@@ -127,6 +127,33 @@ CHECKS = {
                  TargetOps=['delete_cell', 'delete_face', 'delete_vertex', 'collect_garbage', 'hex_add_cell_v'], q=0, sample=3000),
             dict(name='hex-3x3x3', kind='hex', Depth=1, SeedIds=[9], Modes='ModesAll', HistOps=[],
                  TargetOps=['delete_cell', 'collect_garbage'], q=0, sample=60),
+        ],
+        sim=None,
+    ),
+    # C11 stage: construction validates on the tetrahedral / hexahedral kernels (handle-based add_face, add_halfface,
+    # add_cell; closed and non-closed lists, wrong valences, with and without topology check).
+    # `python3 bin/tethex_check.py C11 --tier ...`; prints C11STATS, writes no evidence.
+    'C11': dict(
+        kind='tet', props=['C11'], plevel=0, stats_only=True,
+        quick=[
+            dict(name='tet-faces', kind='tet', Depth=1, SeedIds=[2], Modes='ModesDefault', HistOps=[],
+                 TargetOps=['tet_face_entry'], q=0, sample=400),
+            dict(name='tet-cells', kind='tet', Depth=2, SeedIds=[2, 11], Modes='ModesDefault', HistOps=['delete_cell'],
+                 TargetOps=['add_cell4', 'add_cell4_unchecked'], q=0, sample=500),
+            # a cube (before / after delete_cell) with a flap quad on one of its edges: closed lists in two orders, one
+            # side replaced by any other live halfface (flap, doubled side, opposite, foreign), 5 and 7 entries
+            dict(name='hex-cells', kind='hex', Depth=2, SeedIds=[10], Modes='ModesDefault', HistOps=['delete_cell'],
+                 TargetOps=['add_cell_bad', 'add_cell6_unchecked', 'hex_face_entry'], q=0),
+        ],
+        thorough=[
+            dict(name='tet-faces', kind='tet', Depth=2, SeedIds=[2, 8], Modes='ModesDefault', HistOps=['delete_cell'],
+                 TargetOps=['tet_face_entry'], q=0, sample=5000),
+            dict(name='tet-cells', kind='tet', Depth=2, SeedIds=[1, 2, 5, 8, 11], Modes='ModesAll', HistOps=['delete_cell', 'delete_face'],
+                 TargetOps=['add_cell4', 'add_cell4_unchecked'], q=0, sample=6000),
+            dict(name='hex-cells', kind='hex', Depth=2, SeedIds=[1, 2, 10], Modes='ModesAll', HistOps=['delete_cell'],
+                 TargetOps=['add_cell_bad', 'add_cell6_unchecked', 'hex_face_entry', 'add_cell6'], q=0, sample=8000),
+            dict(name='hex-permutations', kind='hex', Depth=2, SeedIds=[2, 10], Modes='ModesDefault', HistOps=['delete_cell'],
+                 TargetOps=['add_cell_perm'], q=0, sample=4000),
         ],
         sim=None,
     ),
